@@ -10,10 +10,12 @@ pub struct Rng {
 	pub s: u64,
 	/// bias integers to their maximum (used by the C13 oracle)
 	pub maxbias: bool,
+	/// bias sequence lengths to the preallocation window (used by the C09 hostile family)
+	pub bigbias: bool,
 }
 impl Rng {
 	pub fn new(seed: u64) -> Self {
-		Rng { s: seed.wrapping_mul(0x9E3779B97F4A7C15) ^ 0xD1B54A32D192ED03, maxbias: false }
+		Rng { s: seed.wrapping_mul(0x9E3779B97F4A7C15) ^ 0xD1B54A32D192ED03, maxbias: false, bigbias: false }
 	}
 	pub fn next(&mut self) -> u64 {
 		self.s = self.s.wrapping_add(0x9E3779B97F4A7C15);
